@@ -4,8 +4,11 @@
 
   Schema: entity `C` with column attributes (attribute 0 is the reference `parent : Optional(P)`, the others are scalars;
   each may be volatile or lazy) and entity `P` with the collection `kids : Set(C)` (one-to-many, non-volatile).
-  Reader state per `C` instance: `_vals_`, `_dbvals_`, `_rbits_` (no writes: `_wbits_ = 0`), per `P` instance the `SetData`
-  of `kids` (`items`, `is_fully_loaded`, `count`).  All `P` instances are in the identity map.
+  Reader state per `C` instance: `_vals_`, `_dbvals_`, `_rbits_`, `_wbits_`, per `P` instance the `SetData`
+  of `kids` (`items`, `is_fully_loaded`, `count`), and `cache.objects_to_save`.  All `P` instances are in the identity map.
+  The session may assign scalar attributes ([Attribute.__set__]) and `commit()` in the middle of the session
+  ([SessionCache.flush] -> [Entity._save_updated_] with the optimistic check, [Entity._update_dbvals_]); an operation that
+  issues SQL while assignments are pending is preceded by such a commit (auto-flush runs the same `_save_updated_`).
 
   Mirrors (Python names in brackets): [Attribute.__get__/get/load], [Attribute.db_set] (lazy load), [Entity._load_],
   [Entity.load], [Entity._fetch_objects], [Entity._get_from_identity_map_], [Entity._db_set_] with its two loops and the
@@ -50,10 +53,14 @@ structure CObj where
   vals : Attr → Option Val
   dbvals : Attr → Option Val
   rbits : Attr → Bool
+  /-- `_wbits_` -/
+  wbits : Attr → Bool
+  /-- `_wbits_ & _bits_except_volatile_` (the mask `_db_set_` / `db_set` / `__get__` test): maintained together with `wbits` -/
+  wmask : Attr → Bool
 
-def CObj.absent : CObj := ⟨false, fun _ => none, fun _ => none, fun _ => false⟩
+def CObj.absent : CObj := ⟨false, fun _ => none, fun _ => none, fun _ => false, fun _ => false, fun _ => false⟩
 /-- `_get_from_identity_map_(pkval, 'loaded')` for a new instance -/
-def CObj.new : CObj := ⟨true, fun _ => none, fun _ => none, fun _ => false⟩
+def CObj.new : CObj := ⟨true, fun _ => none, fun _ => none, fun _ => false, fun _ => false, fun _ => false⟩
 
 structure SetData where
   items : List Nat
@@ -67,11 +74,14 @@ structure Sess where
   c : Nat → CObj
   /-- `p._vals_.get(P.kids)` -/
   kids : Nat → Option SetData
+  /-- `cache.objects_to_save` -/
+  toSave : List Nat
 
-def Sess.init : Sess := ⟨fun _ => CObj.absent, fun _ => none⟩
+def Sess.init : Sess := ⟨fun _ => CObj.absent, fun _ => none, []⟩
 
 inductive Err
   | unrepeatable     -- UnrepeatableReadError
+  | optimistic       -- OptimisticCheckError (own UPDATE refused: a read attribute changed in the database)
   | other            -- another loud failure (ObjectNotFound / TypeError on a vanished row / KeyError)
   deriving DecidableEq, Repr
 
@@ -132,7 +142,8 @@ def dbSetObj (guarded : Bool) (s : Sess) (cid : Nat) (avdict : List (Attr × Val
   | (s1, some e) => (s1, some e)
   | (s1, none) =>
     let o1 := s1.c cid
-    (setC s1 cid { o1 with vals := overlay o1.vals av }, none)        -- `obj._vals_.update(new_vals)`
+    -- `if wbits & bit: del new_vals[attr]` ... `obj._vals_.update(new_vals)`
+    (setC s1 cid { o1 with vals := overlay o1.vals (av.filter (fun x => !o1.wmask x.1)) }, none)
 
 /-- [Entity._fetch_objects]: per row `_get_from_identity_map_` + `_db_set_`; stops at the first exception -/
 def fetchRows (guarded : Bool) (cols : List Attr) : Sess → List Row → Sess × List Nat × Option Err
@@ -165,6 +176,10 @@ inductive Op
   | count (p : Nat)
   | isEmpty (p : Nat)
   | contains (p : Nat) (c : Nat)
+  /-- `obj.attr = v` for a scalar attribute -/
+  | write (c : Nat) (a : Attr) (v : Val)
+  /-- `commit()` in the middle of the session -/
+  | commit
   deriving Repr
 
 inductive Res
@@ -190,7 +205,8 @@ def readLoad (cfg : Cfg) (guarded : Bool) (s : Sess) (db : Db) (cid : Nat) (a : 
         let nv := rowVal row a
         if o.dbvals a == some nv then (s, none)          -- db_set returns early; `_vals_[attr]` is then missing
         else if o.rbits a then (s, some .unrepeatable)
-        else (setC s cid { o with dbvals := upd o.dbvals a (some nv), vals := upd o.vals a (some nv) }, none)
+        else (setC s cid { o with dbvals := upd o.dbvals a (some nv),
+                                  vals := if o.wmask a then o.vals else upd o.vals a (some nv) }, none)
     else
       match fetchRows guarded (nonLazy cfg) s (db.filter (fun r => r.1 == cid)) with
       | (s1, _, some e) => (s1, some e)
@@ -205,7 +221,8 @@ def readFinish (cfg : Cfg) (r : Sess × Option Err) (cid : Nat) (a : Attr) : Ses
     match o1.vals a with
     | none => (s1, .error .other)                           -- KeyError in `return obj._vals_[attr]`
     | some v =>
-      (setC s1 cid { o1 with rbits := fun x => o1.rbits x || (x == a && !cfg.volatile a) }, .ok v)
+      -- `if not wbits & bit: obj._rbits_ |= bit` with bit = `_bits_except_volatile_[attr]`
+      (setC s1 cid { o1 with rbits := fun x => o1.rbits x || (x == a && !cfg.volatile a && !o1.wmask a) }, .ok v)
 
 /-- `vals[attr] if attr in vals else attr.load(obj)` then the read bit of [Attribute.__get__] -/
 def readCore (cfg : Cfg) (guarded : Bool) (s : Sess) (db : Db) (cid : Nat) (a : Attr) : Sess × Except Err Val :=
@@ -238,6 +255,33 @@ def markItems (cfg : Cfg) (s : Sess) : List Nat → Sess
   | cid :: rest =>
     let o := s.c cid
     markItems cfg (setC s cid { o with rbits := fun x => o.rbits x || (x == refAttr && !cfg.volatile refAttr) }) rest
+
+/-- [Entity._save_updated_] + [Entity._update_dbvals_] for one modified instance: UPDATE ... WHERE pk AND every READ
+    attribute still has the value in `_dbvals_` (rowcount 0 -> OptimisticCheckError); then
+    `_rbits_ |= _wbits_ & _all_bits_except_volatile_; _wbits_ = 0`, `_dbvals_` of the written attributes := the written
+    values, volatile attributes are dropped from `_vals_`/`_dbvals_` -/
+def saveUpdated (cfg : Cfg) (s : Sess) (db : Db) (cid : Nat) : Sess × Option Err :=
+  let o := s.c cid
+  let ok := match db.find? (fun r => r.1 == cid) with
+    | none => false
+    | some row => cfg.attrs.all (fun a => !o.rbits a || o.dbvals a == some (rowVal row a))
+  if !ok then (s, some .optimistic)
+  else
+    (setC s cid { o with
+        rbits := fun a => o.rbits a || o.wmask a,
+        wbits := fun _ => false,
+        wmask := fun _ => false,
+        dbvals := fun a => if cfg.volatile a && (o.vals a).isSome then none
+                           else if o.wbits a && (o.vals a).isSome then o.vals a else o.dbvals a,
+        vals := fun a => if cfg.volatile a then none else o.vals a }, none)
+
+/-- [SessionCache.flush]: `for obj in cache.objects_to_save: obj._save_()`; then the list is cleared -/
+def commitAll (cfg : Cfg) (db : Db) : Sess → List Nat → Sess × Option Err
+  | s, [] => ({ s with toSave := [] }, none)
+  | s, c :: rest =>
+    match saveUpdated cfg s db c with
+    | (s1, some e) => (s1, some e)
+    | (s1, none) => commitAll cfg db s1 rest
 
 /-- one reader operation against the committed database `db` -/
 def exec (cfg : Cfg) (guarded : Bool) (s : Sess) (db : Db) : Op → Sess × Res
@@ -303,6 +347,17 @@ def exec (cfg : Cfg) (guarded : Bool) (s : Sess) (db : Db) : Op → Sess × Res
     match readCore cfg guarded s db c refAttr with
     | (s1, .error e) => (s1, .err e)
     | (s1, .ok v) => (s1, .bool (v == (p : Int)))
+  | .write c a v =>
+    let o := s.c c
+    if !o.present || a == refAttr || !cfg.attrs.contains a then (s, .err .other) else
+    -- [Attribute.__set__], plain attribute: `_wbits_ |= bit`, status 'modified' (queued once), `_vals_[attr] = new_val`
+    let s1 := setC s c { o with vals := upd o.vals a (some v), wbits := upd o.wbits a true,
+                                wmask := upd o.wmask a (!cfg.volatile a) }
+    ({ s1 with toSave := if s.toSave.contains c then s.toSave else s.toSave ++ [c] }, .ok)
+  | .commit =>
+    match commitAll cfg db s s.toSave with
+    | (s1, some e) => (s1, .err e)
+    | (s1, none) => (s1, .ok)
 
 /-- a history: before every reader operation the adversary installs ANY committed database -/
 def run (cfg : Cfg) (guarded : Bool) : Sess → List (Db × Op) → Sess × List Res
